@@ -383,11 +383,11 @@ class StingyConfigurator(pg.All):
         classes = [
             puan.variable,
             pg.AtLeast,
-            pg.AtLeast,
             pg.AtMost,
             pg.All,
             Any,
             Xor,
+            pg.ExactlyOne,
             pg.Not,
             pg.XNor,
             pg.Imply,
